@@ -101,7 +101,7 @@ type c09 struct{}
 func (c09) ID() string    { return "C09" }
 func (c09) Level() string { return "exploration" }
 func (c09) Rule() string {
-	return "cases = histories over {Solve, AppendClause(c)}: base problems (empty over 0..2 variables, T2 with <=1 clause, S3 with <=2 clauses) x 1 appended constraint from the full alphabet (clauses of length 1..3 incl. repeated literals, tautologies and one fresh variable; H5: constraints introducing two variables never seen before (either order, also with a gap in the numbering) as pairs under every Solve placement and triples from a reduced alphabet; NewCardClause with every degree; NewPBClause with weights in {1,2} and every degree 1..sum+1) x Solve placements; 2 appended constraints from a reduced alphabet x all 4 Solve placements; 3 appended short clauses; a seeded catalogue of random formulas fed clause by clause to a live solver (with a cardinality and a PB constraint in the middle). Each history runs once per heuristic choice list (<=1 deviation over all Solve calls of the history). Oracle: truth table of base AND everything appended so far, after every Solve; Unsat is sticky. Non-trivial = some Solve after an append had to search (decision or conflict) or the verdict changed along the history."
+	return "cases = histories over {Solve, AppendClause(c)}: base problems (empty over 0..2 variables, T2 with <=1 clause, S3 with <=2 clauses) x 1 appended constraint from the full alphabet (clauses of length 1..3 incl. repeated literals, tautologies and one fresh variable; H6: cardinality/PB constraints in which a variable occurs several times (repeated literal, literal and its negation), alone and paired with a short clause; H5: constraints introducing two variables never seen before (either order, also with a gap in the numbering) as pairs under every Solve placement and triples from a reduced alphabet; NewCardClause with every degree; NewPBClause with weights in {1,2} and every degree 1..sum+1) x Solve placements; 2 appended constraints from a reduced alphabet x all 4 Solve placements; 3 appended short clauses; a seeded catalogue of random formulas fed clause by clause to a live solver (with a cardinality and a PB constraint in the middle). Each history runs once per heuristic choice list (<=1 deviation over all Solve calls of the history). Oracle: truth table of base AND everything appended so far, after every Solve; Unsat is sticky. Non-trivial = some Solve after an append had to search (decision or conflict) or the verdict changed along the history."
 }
 func (c09) Assumptions() []string {
 	return []string{"truth-table reference is correct", "appended constraints are built by NewClause/NewCardClause/NewPBClause with arguments in their documented domain (degree >= 1, cardinality <= length)"}
@@ -224,6 +224,56 @@ func (c09) Enumerate(tier string, seed int64, yield func(string, core.Case) bool
 		}
 		if !yield("H4+pb", h2) {
 			return
+		}
+	}
+	// H6: cardinality and PB constraints in which a variable occurs several times (the same literal repeated, or a
+	// literal and its negation): every literal sequence of length 2..3 with a repeated variable, every degree,
+	// weights in {1,2}; alone under both Solve placements, and paired with every short clause in either order
+	{
+		var rep []Con
+		for _, nv := range []int{2, 3} {
+			for _, l := range litSeqs(nv, 2, 3) {
+				seen := map[int]bool{}
+				dup := false
+				for _, x := range l {
+					if seen[iabs(x)] {
+						dup = true
+					}
+					seen[iabs(x)] = true
+				}
+				if !dup || (nv == 3 && !seen[3]) { // sequences over 2 variables are produced by nv == 2
+					continue
+				}
+				for k := 1; k <= len(l); k++ {
+					rep = append(rep, Con{T: "card", L: l, K: k})
+				}
+				for _, w := range weightVectors(len(l), 1, 2) {
+					for k := 1; k <= absSum(w)+1; k++ {
+						rep = append(rep, Con{T: "ge", L: l, W: w, K: k})
+					}
+				}
+			}
+		}
+		short := []Con{}
+		for _, l := range litSeqs(3, 1, 2) {
+			short = append(short, Con{T: "cl", L: l})
+		}
+		for bi, b := range basesSmall {
+			for ri, c := range rep {
+				for mask := 0; mask < 2; mask++ {
+					if !yield("H6", histWith(b.p, []Con{c}, mask, 1)) {
+						return
+					}
+				}
+				if bi >= 6 || (ri%8 != 0 && !thorough) {
+					continue
+				}
+				for _, d := range short {
+					if !yield("H6/2", histWith(b.p, []Con{c, d}, 1, 0)) || !yield("H6/2", histWith(b.p, []Con{d, c}, 2, 0)) {
+						return
+					}
+				}
+			}
 		}
 	}
 	// H5: constraints that introduce SEVERAL variables never seen before (two fresh variables, in either order, also
